@@ -174,16 +174,21 @@ class Spellings(Job):
                 variants["xarray_global_attr"] = ds
                 if lname == "streams":
                     # per-variable attributes: one flag variable per (target stream, module, test)
-                    dvars = {}
-                    k = 0
-                    for sid, mods_ in plain.items():
+                    entries = []
+                    for si, (sid, mods_) in enumerate(plain.items()):
+                        ti = 0
                         for mname, tests in mods_.items():
                             for tname, kw in tests.items():
-                                dvars[f"qc{k}"] = xr.DataArray(np.zeros(2), dims=("time",), attrs={
+                                entries.append((si, ti, xr.DataArray(np.zeros(2), dims=("time",), attrs={
                                     "ioos_qc_module": mname, "ioos_qc_test": tname, "ioos_qc_target": sid,
-                                    "ioos_qc_config": json.dumps(kw if kw is not None else {})})
-                                k += 1
-                    variants["xarray_variable_attrs"] = xr.Dataset(dvars)
+                                    "ioos_qc_config": json.dumps(kw if kw is not None else {})})))
+                                ti += 1
+                    # the order of the flag variables in the Dataset is free: grouped by target, interleaved (a target's flag
+                    # variables are not adjacent, as when a second batch of QC results is appended to a file), reversed
+                    orders = {"": entries, "_interleaved": sorted(entries, key=lambda e: (e[1], e[0])),
+                              "_reversed": list(reversed(entries))}
+                    for oname, ents in orders.items():
+                        variants["xarray_variable_attrs" + oname] = xr.Dataset({f"qc{k}": e[2] for k, e in enumerate(ents)})
                 for vname, v in variants.items():
                     try:
                         out[f"{lname}:{vname}"] = self._calls(Config(v))
